@@ -25,8 +25,8 @@ Traces == JsonDeserialize(IOEnv.TRACE_FILE)
 NT == Len(Traces)
 
 SeqSet(s) == { s[i] : i \in 1..Len(s) }
-VARIABLES ti, l, bad, mbad, mpos
-tvars == <<kind, rep, ops, net, nmsg, steps, dev, ti, l, bad, mbad, mpos>>
+VARIABLES ti, l, bad, mbad, mpos, sbad, spos
+tvars == <<kind, rep, ops, net, nmsg, steps, dev, ti, l, bad, mbad, mpos, sbad, spos>>
 
 Tr == Traces[ti]
 
@@ -37,7 +37,7 @@ Load(T) ==
     /\ ops' = <<>> /\ net' = {} /\ nmsg' = 0 /\ steps' = 0 /\ dev' = SeqSet(T.dev)
 
 TInit ==
-    /\ ti = 1 /\ l = 1 /\ bad = "" /\ mbad = "" /\ mpos = 0
+    /\ ti = 1 /\ l = 1 /\ bad = "" /\ mbad = "" /\ mpos = 0 /\ sbad = "" /\ spos = 0
     /\ kind = (IF NT = 0 THEN "G" ELSE Traces[1].kind)
     /\ rep = [r \in R |-> IF NT > 0 /\ Traces[1].store THEN Blank(r)
                           ELSE [Blank(r) EXCEPT !.has = TRUE]]
@@ -108,40 +108,87 @@ RepDiff(o, S) ==
     ELSE IF kind = "PN" /\ o.neg # S.neg THEN "n_counts"
     ELSE IF kind = "LWW" /\ o.reg # S.reg THEN "register"
     ELSE IF kind = "OR" /\ \E e \in AllElems : EntOf(o, e) # S.ent[e] THEN "entries"
-    ELSE IF kind = "OR" /\ SeqSet(o.keys) # S.keys THEN "entry_keys"
-    ELSE IF kind = "OR" /\ o.seq # S.seq THEN "seq"
+    ELSE IF kind \in {"G", "PN"} /\ o.val # ValCounter(S) THEN "value"
+    ELSE IF kind = "LWW" /\ o.val # ValLWW(S) THEN "value"
+    ELSE IF kind = "OR" /\ SeqSet(o.val) # ValOR(S) THEN "value"
     ELSE ""
+\* bookkeeping fields that do not influence any observable by themselves: reported as drift, but a
+\* mismatch there does not stop a registered deviation from explaining a contract failure
+RepDiffSoft(o, S) ==
+    IF ~o.has \/ ~S.has \/ kind # "OR" THEN ""
+    ELSE IF SeqSet(o.keys) # S.keys THEN "entry_keys"
+    ELSE IF o.seq # S.seq THEN "seq"
+    ELSE ""
+SoftVerdict(st, rp) ==
+    IF \E r \in 1..Tr.nr : RepDiffSoft(st.obs[r], rp[r]) # ""
+    THEN LET r == CHOOSE r \in 1..Tr.nr : RepDiffSoft(st.obs[r], rp[r]) # "" IN
+         "MODEL:" \o RepDiffSoft(st.obs[r], rp[r])
+    ELSE ""
+
 ModelVerdict(st, rp) ==
-    IF \A r \in 1..Tr.nr : RepDiff(st.obs[r], rp[r]) = "" THEN ""
-    ELSE LET r == CHOOSE r \in 1..Tr.nr : RepDiff(st.obs[r], rp[r]) # "" IN
+    IF \E r \in 1..Tr.nr : RepDiff(st.obs[r], rp[r]) # ""
+    THEN LET r == CHOOSE r \in 1..Tr.nr : RepDiff(st.obs[r], rp[r]) # "" IN
          "MODEL:" \o RepDiff(st.obs[r], rp[r])
+    ELSE IF \E i \in 1..Len(st.eq) :
+              /\ st.obs[st.eq[i][1]].has /\ st.obs[st.eq[i][2]].has
+              /\ st.eq[i][3] # Eq(kind, rp[st.eq[i][1]], rp[st.eq[i][2]])
+         THEN "MODEL:eq_result"
+    ELSE ""
+
+\* the model's own evaluation of the merge law recorded as Tr.laws[i]
+ModelLaw(i) ==
+    LET L == Tr.laws[i]
+        A == rep[L[2]]
+        B == rep[L[3]]
+        C == rep[L[4]]
+        M(x, y) == MergeInto(kind, x, y)
+    IN CASE L[1] = "commutative" -> Eq(kind, M(A, B), M(B, A))
+         [] L[1] = "idempotent" -> IF L[2] = L[3] THEN Eq(kind, M(A, A), A)
+                                   ELSE Eq(kind, M(M(A, B), B), M(A, B))
+         [] L[1] = "associative" -> Eq(kind, M(M(A, B), C), M(A, M(B, C)))
+         [] OTHER -> TRUE
+LawDrift == \E i \in 1..Len(Tr.laws) : Tr.laws[i][5] # ModelLaw(i)
 
 (* --------------------------------- driver -------------------------------- *)
 \* every trace also reports the first model mismatch: <<"M", id, what, pos>> ("" = none)
 Finish(verdict, pos) ==
     /\ PrintT(<<"V", Tr.id, verdict, pos>>)
     /\ PrintT(<<"M", Tr.id, mbad, mpos>>)
-    /\ ti' = ti + 1 /\ l' = 1 /\ bad' = "" /\ mbad' = "" /\ mpos' = 0
+    /\ ti' = ti + 1 /\ l' = 1 /\ bad' = "" /\ mbad' = "" /\ mpos' = 0 /\ sbad' = "" /\ spos' = 0
+    /\ IF ti < NT THEN Load(Traces[ti + 1])
+       ELSE UNCHANGED <<kind, rep, ops, net, nmsg, steps, dev>>
+
+\* a failed merge law is reproduced by the model only if the model evaluates the laws alike
+FinishLaw(verdict, pos) ==
+    /\ PrintT(<<"V", Tr.id, verdict, pos>>)
+    /\ PrintT(IF mbad = "" /\ LawDrift THEN <<"M", Tr.id, "MODEL:law_result", pos>>
+              ELSE <<"M", Tr.id, mbad, mpos>>)
+    /\ ti' = ti + 1 /\ l' = 1 /\ bad' = "" /\ mbad' = "" /\ mpos' = 0 /\ sbad' = "" /\ spos' = 0
     /\ IF ti < NT THEN Load(Traces[ti + 1])
        ELSE UNCHANGED <<kind, rep, ops, net, nmsg, steps, dev>>
 
 Keep == UNCHANGED <<kind, rep, ops, net, nmsg>>
 NoteModel(mv) == IF mbad = "" /\ mv # "" THEN mbad' = mv /\ mpos' = l ELSE UNCHANGED <<mbad, mpos>>
+NoteSoft(sv) == IF sbad = "" /\ sv # "" THEN sbad' = sv /\ spos' = l ELSE UNCHANGED <<sbad, spos>>
 
 TNext ==
     /\ ti <= NT
     /\ IF bad # "" THEN Finish(bad, l - 1)
        ELSE IF l > Len(Tr.steps)
-            THEN (IF LawVerdict # "" THEN Finish(LawVerdict, l - 1)
+            THEN (IF LawVerdict # "" THEN FinishLaw(LawVerdict, l - 1)
                   ELSE IF mbad # "" THEN Finish(mbad, mpos)
+                  ELSE IF LawDrift THEN Finish("MODEL:law_result", l - 1)
+                  ELSE IF sbad # "" THEN Finish(sbad, spos)
                   ELSE Finish("ACCEPT", l - 1))
        ELSE /\ IF Applicable(Tr.steps[l].a)
                THEN /\ Apply(Tr.steps[l].a)
                     /\ bad' = PropVerdict(Tr.steps[l], rep', ops')
                     /\ NoteModel(ModelVerdict(Tr.steps[l], rep'))
+                    /\ NoteSoft(SoftVerdict(Tr.steps[l], rep'))
                ELSE /\ Keep
                     /\ bad' = PropVerdict(Tr.steps[l], rep, ops)
                     /\ NoteModel("MODEL:action_not_enabled")
+                    /\ UNCHANGED <<sbad, spos>>
             /\ l' = l + 1 /\ UNCHANGED <<ti, steps, dev>>
 
 TSpec == TInit /\ [][TNext]_tvars
